@@ -6,27 +6,33 @@
 #ifndef C18_ALLOC_H
 #define C18_ALLOC_H
 
-/* an inline bstr with CONSTANT capacity n (constant at every call site) and nondet contents */
+/* HOW THE HARNESS STATE IS BUILT (learned the hard way, see notes/c18.md):
+ *  - with --malloc-may-fail a malloc result is `fail ? NULL : &object`.  symex narrows it to `&object` only when the
+ *    pointer is tested ALONE (`if (p == NULL) { ...; return; }`, value-set filtering); after a compound test
+ *    (`if (!a || !b) ...`) every write through p stays conditional (`p == &object ? v : old`), no field is a constant
+ *    any more and every loop bounded by a field is unwound to the --unwind limit (htp_table_get_c on a one-entry
+ *    table: 31 s and 1.4 GB instead of 0.26 s).  Hence: allocate the raw objects, then C18_NEED(p, cleanup) for each one.
+ *  - initialise the fields in straight-line code on the objects themselves, not in a helper that returns
+ *    "NULL or an initialised object" (its two branches merge at the exit: fields become `guard ? value : nondet`),
+ *    and never through the library's init on an embedded list (htp_list_array_init(&t->list, n)).
+ *  - malloc(sizeof(T)) + `*p = (T){0}`, not calloc: a calloc'ed object is a byte array, every field access a byte_extract.
+ *  - all sizes are constants. */
+#define C18_NEED(p, cleanup) if ((p) == NULL) { cleanup; return; }
+#define C18_BSTR_RAW(n) ((bstr *) malloc(sizeof(bstr) + (n)))
+#define C18_BSTR_INIT(b, n, a) do { (b)->len = (n); (b)->size = (n); (b)->realptr = NULL; \
+    for (size_t i_ = 0; i_ < (n); i_++) ((unsigned char *) (b) + sizeof(bstr))[i_] = ((const unsigned char *) (a))[i_]; } while (0)
+/* (function form: only where the result's fields need not stay constant) */
 static bstr *c18_bstr(size_t n, const unsigned char *a) {
   bstr *b = malloc(sizeof(bstr) + n);
   if (b == NULL) return NULL;
-  b->len = n; b->size = n; b->realptr = NULL;
-  for (size_t i = 0; i < n; i++) ((unsigned char *) b + sizeof(bstr))[i] = a[i];
+  C18_BSTR_INIT(b, n, a);
   return b;
 }
-
-/* Lists and tables of the harness state are built FIELD BY FIELD on the object itself, never through the library's
- * init functions: a write through a pointer to the embedded list (htp_list_array_init(&t->list, n)) defeats symex's constant
- * propagation, the next push then explores the growth path with symbolic sizes and the encoding explodes (16 GB).
- * CAP must be a constant.  The layout is exactly what htp_table_create / htp_list_array_init produce. */
-#define C18_MK_LIST_FIELDS(l, CAP) ((l).first = 0, (l).last = 0, (l).current_size = 0, (l).max_size = (CAP))
-#define C18_MK_TABLE(t, CAP) do { (t) = malloc(sizeof(htp_table_t)); if ((t) != NULL) { \
-    (t)->list.elements = malloc((CAP) * sizeof(void *)); \
-    if ((t)->list.elements == NULL) { free(t); (t) = NULL; } \
-    else { C18_MK_LIST_FIELDS((t)->list, (CAP)); (t)->alloc_type = HTP_TABLE_KEYS_ALLOC_UKNOWN; } } } while (0)
-#define C18_MK_LIST(l, CAP) do { (l) = malloc(sizeof(htp_list_array_t)); if ((l) != NULL) { \
-    (l)->elements = malloc((CAP) * sizeof(void *)); \
-    if ((l)->elements == NULL) { free(l); (l) = NULL; } else C18_MK_LIST_FIELDS(*(l), (CAP)); } } while (0)
+/* table = what htp_table_create(CAP/2) produces; list = htp_list_array_create(CAP).  CAP constant. */
+#define C18_LIST_FIELDS(l, CAP) ((l).first = 0, (l).last = 0, (l).current_size = 0, (l).max_size = (CAP))
+#define C18_ELEMS_RAW(CAP) ((void **) malloc((CAP) * sizeof(void *)))
+#define C18_TABLE_INIT(t, elems, CAP) do { (t)->list.elements = (elems); C18_LIST_FIELDS((t)->list, (CAP)); (t)->alloc_type = HTP_TABLE_KEYS_ALLOC_UKNOWN; } while (0)
+#define C18_LIST_INIT(l, elems, CAP) do { (l)->elements = (elems); C18_LIST_FIELDS(*(l), (CAP)); } while (0)
 /* append one (key, element) pair the way _htp_table_add does (no growth: the caller keeps within CAP) */
 #define C18_TABLE_PUT(t, key, el, MODE) do { (t)->list.elements[(t)->list.last] = (void *) (key); (t)->list.elements[(t)->list.last + 1] = (void *) (el); \
     (t)->list.last += 2; (t)->list.current_size += 2; (t)->alloc_type = (MODE); } while (0)
